@@ -52,7 +52,8 @@ impl Property for C10 {
         cfg.weights = [26, 22, 4, 8, 12, 4, 14, 14];
         cfg.noise_flags = 4;
         let n = 1 + t.weighted(&[80, 20]);
-        let exprs: Vec<Expr> = (0..n).map(|_| gen_expr(t, &cfg)).collect();
+        let mut exprs: Vec<Expr> = (0..n).map(|_| gen_expr(t, &cfg)).collect();
+        add_empty_member(t, &mut exprs);
         let mut paths = pat_pool(t, &exprs, 2);
         let canon: Vec<String> = paths.iter().map(|p| canonicalize(p)).collect();
         paths.extend(canon);
